@@ -10,6 +10,12 @@ namespace Dos.Handlers
 @[simp] theorem isPanic_err (k : String) : (Out.err k).isPanic = false := rfl
 @[simp] theorem isPanic_dropped : Out.dropped.isPanic = false := rfl
 @[simp] theorem isPanic_panic (s : String) : (Out.panic s).isPanic = true := rfl
+@[simp] theorem all_peerClean : Cfg.all.peerClean = Clean.all := rfl
+@[simp] theorem all_reqClean : Cfg.all.reqClean = Clean.all := rfl
+@[simp] theorem all_expClean : Cfg.all.expClean = Clean.all := rfl
+@[simp] theorem fireC_all (s : Sess) (sid : String) (r : Req) (k : Nat) (site : String) :
+    fireC Clean.all s sid r k site = fire s sid r k site := by
+  simp [fireC, fire, Clean.all]
 @[simp] theorem all_xpubCastSelf : Cfg.all.xpubCastSelf = true := rfl
 @[simp] theorem all_xpubCastPeer : Cfg.all.xpubCastPeer = true := rfl
 @[simp] theorem all_xpubIdx : Cfg.all.xpubIdx = true := rfl
